@@ -27,6 +27,7 @@ Inductive kind :=
 | KVar (name : string)                (* Variable / Immediate / ReturnValue *)
 | KTmp (name : string) (gcc : bool)   (* h_tmpN local; gcc = owner is a GCCStmtDeclExpr *)
 | KParam (name : string)
+| KMacro                              (* MacroInvocation (always inlined; passed textually to external parameters) *)
 | KExec.                              (* any other PureExec *)
 
 Record pval := mkpv { pv_term : pure; pv_ty : vtype; pv_kind : kind; pv_tmps : list string }.
@@ -85,10 +86,14 @@ Record fixes := mkfx {
   fx_compound_conv : bool;  (* D14: compound assignment converts the result to the target type *)
   fx_literals : bool;       (* D6: literal typing per C11 6.4.4.1, folding in the C result type with wrap-around *)
   fx_divmod : bool;         (* D19: / and % convert their operands like the other arithmetic operators and are signed for signed types *)
-  fx_addr : bool            (* D20: the address operand of mem_load / mem_store is converted to the 32-bit address type *)
+  fx_addr : bool;           (* D20: the address operand of mem_load / mem_store is converted to the 32-bit address type *)
+  fx_reject_dropped : bool  (* D7: comma expressions, labels, goto/break/continue raise instead of being dropped *)
 }.
-Definition no_fixes := mkfx false false false false false false false false.
-Definition all_fixes := mkfx true true true true true true true true.
+Definition no_fixes := mkfx false false false false false false false false false.
+Definition all_fixes := mkfx true true true true true true true true true.
+(* the switches that are ON in the repository as it stands: defects repaired by `fix:` commits
+   (D1 shift promotion, D13 comparison/?: promotion, D14 compound assignment conversion, D7 rejection) *)
+Definition faithful := mkfx false true false true true false false false true.
 
 Record config := mkcfg {
   cfg_fx : fixes;
@@ -569,6 +574,7 @@ Fixpoint lower_args (items : list item) (ptypes : list vtype) : M (list arg * li
         | IPure p => match pv_kind p with
                      | KParam n => ret (ARaw n :: rest, tm)
                      | KReg n => ret (AOp (RParam ("$reg:" +++ n)) :: rest, tm)
+                     | KMacro => ret (APure (rd p) :: rest, pv_tmps p ++ tm)
                      | _ => fail "argument has no operand holding variable"
                      end
         | IStr s | ITok s => ret (ARaw s :: rest, tm)
@@ -727,7 +733,27 @@ Definition has_tree (l : list item) : bool := existsb (fun i => match i with ITr
                              ret (IPure (mkpv (PBv true 32 sz) (ty_int true 32) (KLit sz false) []))
               | _ => fail "sizeof operand"
               end
-            else fail ("No value type for function " +++ f)
+            else
+              (* legacy c_call handler (Hybrids/Call.py) *)
+              let rd_arg := fun (i : item) =>
+                match i with
+                | IStr x | ITok x => ret (ARaw x)
+                | IPure p => match pv_kind p with
+                             | KParam n => ret (ARaw n)
+                             | KReg n => if String.eqb (substring 0 1 n) "P" then ret (ARaw ("""" +++ n +++ """")) else ret (APure (rd p))
+                             | _ => ret (APure (rd p)) end
+                | _ => fail "c_call argument" end in
+              if String.eqb f "STORE_SLOT_CANCELLED" then
+                (match items with
+                 | [_; _] => do _ <- touch;
+                     resolve_hybrid ty_void (PRaw "void") (EPlugin "HEX_STORE_SLOT_CANCELLED" [ARaw "pkt"; ARaw "hi->slot"]) true false (flat_map item_tmps items) (has_tree items)
+                 | _ => fail "Argument and parameter count mismatch" end)
+              else if String.eqb f "get_npc" then
+                (match items with
+                 | [a] => do ra <- rd_arg a; do _ <- touch;
+                     resolve_hybrid (ty_int false 32) (PSignExt false 32 (PVarL "ret_val")) (EPlugin "HEX_GET_NPC" [ra]) true false (item_tmps a) (has_tree items)
+                 | _ => fail "Argument and parameter count mismatch" end)
+              else fail ("No value type for function " +++ f)
         end
     | EMacro m args =>
         do items <- lower_exprs args;
@@ -739,8 +765,9 @@ Definition has_tree (l : list item) : bool := existsb (fun i => match i with ITr
             do ps <- (fix go (l : list arg) : M (list pure) :=
                         match l with [] => ret [] | APure p :: t => do r <- go t; ret (p :: r)
                                    | ARaw s :: t => do r <- go t; ret (PRaw s :: r)
-                                   | AOp _ :: t => fail "macro operand argument (not modelled)" end) al;
-            ret (IPure (mkpv (PApp (mac_rz mg) ps) (mac_ret mg) KExec tm))
+                                   | AOp (RParam h) :: t => do r <- go t; ret (PRaw ("$op:" +++ substring 5 (String.length h - 5) h) :: r)
+                                   | AOp _ :: t => fail "macro operand argument" end) al;
+            ret (IPure (mkpv (PApp (mac_rz mg) ps) (mac_ret mg) KMacro tm))
         end
     | ELoad sg w args =>
         do items <- lower_exprs args;
@@ -762,7 +789,8 @@ Definition has_tree (l : list item) : bool := existsb (fun i => match i with ITr
         | [], _ => fail "gcc extended expr without statement (modelled as unsupported)"
         | _, _ => fail "List of statements in gcc extended expressions not implemented"
         end
-    | EComma l r => do _ <- lower_expr l; do _ <- lower_expr r; ret (ITree "expr")
+    | EComma l r => do _ <- lower_expr l; do _ <- lower_expr r;
+                    if fx_reject_dropped fx then fail "Comma expressions are not supported" else ret (ITree "expr")
     | _ => fail "unsupported expression form"
     end
   with lower_exprs (l : cexprs) {struct l} : M (list item) :=
@@ -875,10 +903,11 @@ Definition has_tree (l : list item) : bool := existsb (fun i => match i with ITr
         end
     | SWhile _ _ | SDo _ _ => fail "loop not supported"
     | SSwitch _ _ => fail "switch branch not implemented"
-    | SLabel _ st | SCase st => do _ <- lower_stmt st; ret [ITree "labeled_stmt"]
-    | SGoto _ => ret [ITok "goto"]
-    | SBreak => ret [ITok "break"]
-    | SContinue => ret [ITok "continue"]
+    | SLabel _ st | SCase st => do _ <- lower_stmt st;
+                                if fx_reject_dropped fx then fail "Labeled statements are not supported" else ret [ITree "labeled_stmt"]
+    | SGoto _ => if fx_reject_dropped fx then fail "Jump statement is not supported" else ret [ITok "goto"]
+    | SBreak => if fx_reject_dropped fx then fail "Jump statement is not supported" else ret [ITok "break"]
+    | SContinue => if fx_reject_dropped fx then fail "Jump statement is not supported" else ret [ITok "continue"]
     end
   with lower_stmts (l : cstmts) {struct l} : M (list item) :=
     match l with
@@ -917,7 +946,10 @@ Section Finalize.
 
   Fixpoint fin_pure (p : pure) : pure :=
     match p with
-    | PRaw s => match reg_name_of s with Some n => reg_read n | None => p end
+    | PRaw s => match reg_name_of s with
+                | Some n => reg_read n
+                | None => if String.eqb (substring 0 4 s) "$op:" then PRaw (substring 4 (String.length s - 4) s +++ "_op") else p
+                end
     | PLet x e b => PLet x (fin_pure e) (fin_pure b)
     | PUn o a => PUn o (fin_pure a)
     | PBin o a b => PBin o (fin_pure a) (fin_pure b)
